@@ -3,7 +3,7 @@ enumerated (schema, value) and prints the scenarios), then helpers to replay the
 import json
 import os
 
-from . import common, scopes
+from . import common, pyavro, scopes
 
 
 def gen_codec_scenarios(tier, fuel=None, nshards=None):
@@ -33,5 +33,49 @@ def readers(tier, n):
     return rs
 
 
-def strip_ignored(v):
-    return v
+def dec_text(be16, scale):
+    """the text a decimal (16-byte BE two's complement unscaled, scale) is shown as by a str-visiting target"""
+    u = pyavro.from_be16(be16)
+    neg, mag = u < 0, str(abs(u))
+    if scale > 0:
+        mag = mag.rjust(scale + 1, "0")
+        mag = mag[:-scale] + "." + mag[-scale:]
+    return ("-" if neg else "") + mag
+
+
+def erase(G, key, v):
+    """Projection of a value onto what a self-describing target (hints = "any") is shown: union wrappers vanish,
+    enums are their symbol text, fixed is bytes, records are maps keyed by field name, durations are maps of u32,
+    decimals are their text."""
+    n = G[key - 1]
+    e = pyavro.eff(n)
+    t = v["t"]
+    if t in ("null", "bool", "int", "long", "f32", "f64", "bytes", "str"):
+        return v
+    if t == "fix":
+        return {"t": "bytes", "v": v["v"]}
+    if t == "dur":
+        b = v["v"]
+        parts = [int.from_bytes(bytes(b[i:i + 4]), "little") for i in (0, 4, 8)]
+        return {"t": "map", "kv": [[list(name.encode()), {"t": "u32", "v": pyavro.limbs(x)}]
+                                   for name, x in zip(("months", "days", "milliseconds"), parts)]}
+    if t == "enum":
+        return {"t": "str", "v": n["symbols"][v["i"]]}
+    if t == "dec":
+        return {"t": "str", "v": list(dec_text(v["v"], v["s"]).encode())}
+    if t == "arr":
+        return {"t": "arr", "es": [erase(G, n["items"], x) for x in v["es"]]}
+    if t == "map":
+        return {"t": "map", "kv": [[k, erase(G, n["values"], x)] for k, x in v["kv"]]}
+    if t == "rec":
+        return {"t": "map", "kv": [[f["n"], erase(G, f["t"], x)] for f, x in zip(n["fields"], v["es"])]}
+    if t == "un":
+        return erase(G, n["variants"][v["b"]], v["x"])
+    raise ValueError(t)
+
+
+HINTS = ["default", "alt", "any"]
+
+
+def expected_for(G, v, hints):
+    return erase(G, 1, v) if hints == "any" else v
